@@ -1347,3 +1347,23 @@ package analysis
 //@   loop 1: invariant result != nil && fresh(result)
 //@   loop 1: invariant forall n string :: (n in dom(result)) <==> ((exists i in 0..idx :: requirements[i].Name == n) && n in dom(s.spec.SecurityDefinitions) && s.spec.SecurityDefinitions[n] != nil)
 //@   loop 1: invariant forall n in dom(result) :: result[n] == *s.spec.SecurityDefinitions[n]
+
+// the security schemes named by the effective requirements, defined and non-nil
+//@ fun namedByEff(s *Spec, op *spec.Operation, n string) bool = exists i in 0..len(effSec(s, op)) :: n in dom(effSec(s, op)[i])
+
+//@ func (s *Spec) SecurityDefinitionsFor(operation)
+//@   requires s != nil && s.spec != nil && operation != nil
+//@   modifies nothing
+//@   ensures result != nil ==> fresh(result) && (forall n in dom(result) :: n != "" && n in dom(s.spec.SecurityDefinitions) && s.spec.SecurityDefinitions[n] != nil && result[n] == *s.spec.SecurityDefinitions[n])
+//@   ensures result != nil ==> forall n in dom(result) :: namedByEff(s, operation, n)
+//@   ensures result != nil ==> forall n string :: n != "" && namedByEff(s, operation, n) && n in dom(s.spec.SecurityDefinitions) && s.spec.SecurityDefinitions[n] != nil ==> n in dom(result)
+//@   ensures result == nil ==> len(effSec(s, operation)) == 0
+//@   loop 1: modifies map result
+//@   loop 1: invariant result != nil && fresh(result) && (forall n in dom(result) :: n != "" && n in dom(s.spec.SecurityDefinitions) && s.spec.SecurityDefinitions[n] != nil && result[n] == *s.spec.SecurityDefinitions[n])
+//@   loop 1: invariant forall n in dom(result) :: exists i in 0..idx :: hasReq(requirements[i], n)
+//@   loop 1: invariant forall i in 0..idx :: forall n string :: n != "" && hasReq(requirements[i], n) && n in dom(s.spec.SecurityDefinitions) && s.spec.SecurityDefinitions[n] != nil ==> n in dom(result)
+//@   loop 2: modifies map result
+//@   loop 2: invariant result != nil && fresh(result) && (forall n in dom(result) :: n != "" && n in dom(s.spec.SecurityDefinitions) && s.spec.SecurityDefinitions[n] != nil && result[n] == *s.spec.SecurityDefinitions[n])
+//@   loop 2: invariant forall n in dom(result) :: (exists i in 0..idx1 :: hasReq(requirements[i], n)) || (exists j in 0..idx :: reqs[j].Name == n)
+//@   loop 2: invariant forall i in 0..idx1 :: forall n string :: n != "" && hasReq(requirements[i], n) && n in dom(s.spec.SecurityDefinitions) && s.spec.SecurityDefinitions[n] != nil ==> n in dom(result)
+//@   loop 2: invariant forall j in 0..idx :: reqs[j].Name != "" && reqs[j].Name in dom(s.spec.SecurityDefinitions) && s.spec.SecurityDefinitions[reqs[j].Name] != nil ==> reqs[j].Name in dom(result)
